@@ -332,6 +332,20 @@ theorem setup_epoch_milli {c : Cfg} (hc : Proved c) (epochMs : BitVec 64) (mode 
     (setupCfg c epochMs mode lowest).1 = epochMs ∧ (setupCfg c epochMs mode lowest).2.2 = lowest := by
   unfold setupCfg; rw [hc.2.2]; simp only [accMs, accWord, BitVec.ofInt_toInt, and_self]
 
+/-- a node configured through `Setup` (any mode, any epoch far from the int64 limits, node-at-lowest on or off) and
+    then run under clock readings: the layout is one of the six, and every id carries a timestamp not earlier than the
+    reading, relative to the epoch that was asked for — the options change the layout and nothing else -/
+theorem setup_then_ts_ge_clock {c : Cfg} (hc : Proved c) (epochMs : BitVec 64) (mode : BitVec 8) (lowest : Bool)
+    (ts : List Clock) (st : HState) (hep : st.epoch = (setupCfg c epochMs mode lowest).1)
+    (wf : WF (setupCfg c epochMs mode lowest).2.1 st) (hok : ∀ t ∈ ts, ClockOk st.epoch t)
+    (hw : InWidth (setupCfg c epochMs mode lowest).2.1 (setupCfg c epochMs mode lowest).2.2 st
+      (ts.map (fun t => hardNow c st.epoch (accWord c.nowAcc t)))) :
+    ∀ p ∈ List.zip ts (hardRun c (setupCfg c epochMs mode lowest).2.1 (setupCfg c epochMs mode lowest).2.2 st ts),
+      p.1.ms - epochMs.toInt ≤ (idFields p.2 (setupCfg c epochMs mode lowest).2.1 (setupCfg c epochMs mode lowest).2.2).1.toInt := by
+  have h := hard_ts_ge_clock hc (setup_layout_ok c epochMs mode lowest) (setupCfg c epochMs mode lowest).2.2 ts st wf hok hw
+  rw [hep, (setup_epoch_milli hc epochMs mode lowest).1] at h
+  exact h
+
 /-- `UseEpoch` through `UnixNano` (finding of the audit, same root cause as F06): the epoch 2300-01-01 is stored as
     a negative number of milliseconds -/
 theorem witness_unixNano_useEpoch :
